@@ -16,6 +16,14 @@ CLAIMED = {
    text="Decides: from search_dates no modelled raising operation escapes except the documented argument validation (look-ahead subscripts need a bound guard or covering handler; divisions need a zero guard; assembled regexes must be built from compiling constants and re.escape()d text); hit and substring lists are appended pairwise; nothing on the hit flow sorts/reverses/sets; the list is returned only when truthy; the attached language is the single search language. Does not decide non-blank / substring-of-text.",
    note="Same trusted base as C02.", ref="DESIGN.md §4 C17"),
 }
+CLAIMED.update({
+ "C16": dict(cat="translation_validation", tech="static artefact comparison: modelled generator vs shipped modules; symbolic pickle disassembly vs table rebuilt from literals (ast, pickletools)",
+   text="Decides the property as stated, without running any generator: all language modules are byte-equal to a model of write_complete_data applied to the CLDR JSON, supplementary YAML and base YAML (model literals extracted from the generator's AST each run, skeleton and both combine_dicts copies conformance-checked); the pickled timezone table (names, patterns, IGNORECASE flag, offsets, both search regexes, stored hash) equals the table rebuilt from timezones.py by a conformance-checked model of build_tz_offsets; language_order / language_locale_dict / language_map agree with the module set and the modules' locale_specific keys.",
+   note="Trusted: stdlib json/zlib/pickletools; the YAML-subset reader (exit 2 outside the subset; cross-validated against PyYAML at development time); the regex package applied to table patterns; the compiled-code blob inside each pickled regex is assumed to belong to its (pattern, flags).", ref="DESIGN.md §4 C16"),
+ "C19": dict(cat="other", tech="handler-coverage, CFG definite-assignment and must-pass-through rules (ast + CFG with exception edges)",
+   text="Decides: the try around open+pickle.load+unpack in _load_offsets handles every exception class a missing, empty, truncated or garbage cache can raise and falls through to the rebuild; on every path to a normal return the three module tables are assigned (exception edges out of the unpack do not count); every normal return is either the early return dominated by the complete unpack or passes through the pickle.dump of the same tuple; none of those classes escapes the module's import-time code; MANIFEST.in ships the file CACHE_PATH denotes.",
+   note="Assumes a proper prefix of a pickle stream makes pickle.load raise (no STOP opcode), so 'cut off at any byte' reduces to handler coverage. The atomic-write clause of DESIGN (C19.R2) is not claimed: with complete handler coverage an in-place write cannot break the property.", ref="DESIGN.md §4 C19"),
+})
 NA_REASON = {}
 
 def main():
